@@ -162,6 +162,13 @@ fn user_action(rng : &mut Rng, pr : &Profile, scn : &mut Scn, rules : &mut Vec<X
         10 => { if !pr.wreck || !rng.chance(1, 2) { return false; } let w = ["all", "cache", "history", "table"][rng.below(4)]; scn.delruler(w) },
         11 => { if !pr.env { return false; } let v = format!("e{}", rng.below(2)); if scn.sys.fs.lock().unwrap().env == v { return false; } scn.set_env(&v); true },
         12 => { let c = format!("B{}", rng.below(2)); if scn.sys.get("zz") == Some(c.clone()) { return false; } scn.edit("zz", &c); true },
+        13 =>
+        {   /* the user removes a workspace directory with everything in it, or makes it again */
+            let dirs = scn.top_dirs();
+            if dirs.len() == 0 { return false; }
+            let d = dirs[rng.below(dirs.len())].clone();
+            if scn.removed.contains(&d) { scn.mkdir(&d) } else if rng.chance(1, 2) { scn.rmdir(&d) } else { false }
+        },
         _ => false,
     }
 }
